@@ -171,6 +171,8 @@ def dense_value(tn_or_t, outer=None):
             occ[ix] = occ.get(ix, 0) + 1
     if outer is None:
         outer = sorted(ix for ix, c in occ.items() if c == 1)
+    if not ts:
+        return [], np.asarray(10.0 ** float(np.real(expo)))
     num = {ix: i for i, ix in enumerate(occ)}
     if len(num) > 52:
         raise Skip("too many labels for numpy.einsum")
@@ -179,7 +181,14 @@ def dense_value(tn_or_t, outer=None):
         ops.append(np.asarray(t.data))
         ops.append([num[ix] for ix in t.inds])
     ops.append([num[ix] for ix in outer])
-    val = np.einsum(*ops, optimize="greedy" if len(ts) > 2 else False)
+    if len(ts) > 2:
+        path, info = np.einsum_path(*ops, optimize="greedy")
+        for line in info.splitlines():
+            if "Optimized FLOP count" in line and float(line.split(":")[1]) > 3e7:
+                raise Skip("reference evaluation too expensive")
+        val = np.einsum(*ops, optimize=path)
+        return outer, val * 10.0 ** float(np.real(expo))
+    val = np.einsum(*ops, optimize=False)
     return outer, val * 10.0 ** float(np.real(expo))
 
 
@@ -246,24 +255,64 @@ def same_labelled_value(a, b, what, loose=1.0, check_structure=True):
         return None if repr(a) == repr(b) else f"{what}: {repr(a)[:80]} vs {repr(b)[:80]}"
 
 
+def _kind(v):
+    if is_tn(v):
+        return "TN"
+    if is_tensor(v):
+        return "T"
+    if isinstance(v, (int, float, complex, np.number)) or (isinstance(v, np.ndarray) and v.ndim == 0):
+        return "scalar"
+    return "other"
+
+
+def _as_value(v):
+    if _kind(v) in ("TN", "T"):
+        return dense_value(v)
+    return [], np.asarray(v)
+
+
 def same_labelled_object(a, b, what):
-    """strict: tensor by tensor (same order), labels equal modulo a bijection of generated names, arrays equal"""
-    if is_tn(a) and is_tn(b):
+    """strict: tensor by tensor, labels equal modulo a bijection of generated names, arrays equal (tensor ids are
+    not part of the labelled content: tensors are matched in order, else as a multiset); a fully contracted result
+    may be wrapped differently by the two spellings (scalar / Tensor / one-tensor network): compared by value then"""
+    ka, kb = _kind(a), _kind(b)
+    if ka in ("TN", "T", "scalar") and kb in ("TN", "T", "scalar") and ka != kb:
+        try:
+            (oa, va), (ob, vb) = _as_value(a), _as_value(b)
+        except Skip:
+            return None
+        if oa != ob:
+            return f"{what}: outer labels {oa} vs {ob}"
+        return _close(va, vb, what + " (value; the spellings wrap the result differently)")
+    if ka == "TN" and kb == "TN":
         if type(a).__name__ != type(b).__name__:
             return f"{what}: class {type(a).__name__} vs {type(b).__name__}"
-        ta, tb = list(a.tensor_map.items()), list(b.tensor_map.items())
-        if [k for k, _ in ta] != [k for k, _ in tb]:
-            return f"{what}: tensor ids {[k for k, _ in ta]} vs {[k for k, _ in tb]}"
+        ta, tb = list(a.tensor_map.values()), list(b.tensor_map.values())
+        if len(ta) != len(tb):
+            return f"{what}: {len(ta)} vs {len(tb)} tensors"
         e = _close(a.exponent, b.exponent, what + " exponent")
         if e:
             return e
         ren = {}
-        for (tid, u), (_, v) in zip(ta, tb):
-            e = _same_tensor(u, v, f"{what} tensor {tid}", ren)
-            if e:
-                return e
+        first = None
+        for k, (u, v) in enumerate(zip(ta, tb)):
+            first = _same_tensor(u, v, f"{what} tensor #{k}", ren)
+            if first:
+                break
+        if first:
+            # unordered matching
+            ren, left = {}, list(tb)
+            for k, u in enumerate(ta):
+                for v in left:
+                    r2 = dict(ren)
+                    if _same_tensor(u, v, "", r2) is None:
+                        ren = r2
+                        left.remove(v)
+                        break
+                else:
+                    return first
         return same_labelled_value(a, b, what, check_structure=False)
-    if is_tensor(a) and is_tensor(b):
+    if ka == "T" and kb == "T":
         return _same_tensor(a, b, what, {})
     if isinstance(a, (list, tuple)) and isinstance(b, (list, tuple)) and len(a) == len(b):
         for i, (u, v) in enumerate(zip(a, b)):
@@ -374,7 +423,22 @@ def discover(cls):
                 {k: v for k, v in araw.keywords.items() if k != "inplace"} == kw and araw.keywords.get("inplace") is True
             rec["alias_ok"] = bool(ok)
         out.append(rec)
-    # in-place aliases whose plain spelling does not exist at all (e.g. contract_mps_sweep_) are listed too
+    # in-place aliases whose plain spelling takes `inplace` only through **kwargs (gauge_all, contract_mps_sweep)
+    have = {r["name"] for r in out}
+    for name in sorted(dir(cls)):
+        if name.endswith("_") and not name.startswith("_") and not name.endswith("__") and name[:-1] not in have:
+            aowner, araw = resolve(cls, name)
+            if isinstance(araw, functools.partialmethod) and araw.keywords.get("inplace") is True:
+                owner, raw = resolve(cls, name[:-1])
+                if raw is None:
+                    continue
+                fn, kw = (raw.func, dict(raw.keywords)) if isinstance(raw, functools.partialmethod) else (raw, {})
+                if not inspect.isfunction(fn):
+                    continue
+                ok = araw.func is fn and {k: v for k, v in araw.keywords.items() if k != "inplace"} == kw
+                out.append(dict(name=name[:-1], owner=owner.__name__, fn=fn, kw=kw, inplace_default=False, alias=name,
+                                alias_ok=bool(ok), alias_owner=aowner.__name__, sig=inspect.signature(fn)))
+    # in-place aliases whose plain spelling does not exist at all are listed too
     for name in sorted(dir(cls)):
         if name.endswith("_") and not name.startswith("_") and not name.endswith("__"):
             owner, raw = resolve(cls, name)
@@ -416,21 +480,21 @@ def zoo(qtn, quick):
 
     @reg("Tensor")
     def _(rng, dt):
-        return qtn.Tensor(rnd(rng, (2, 3, 2), dt), ("a", "b", "c"), tags=("X", "Y"))
+        return qtn.Tensor(rnd(rng, (2, 3, 2), dt), ("a", "e", "c"), tags=("X", "Y"))
 
     @reg("Tensor-dims1")
     def _(rng, dt):
-        return qtn.Tensor(rnd(rng, (1, 2, 1, 2), dt), ("a", "b", "c", "d"), tags=("X",), left_inds=("a", "b"))
+        return qtn.Tensor(rnd(rng, (1, 2, 1, 2), dt), ("a", "e", "c", "d"), tags=("X",), left_inds=("a", "e"))
 
     @reg("Tensor-square")
     def _(rng, dt):
-        return qtn.Tensor(rnd(rng, (2, 2, 2), dt), ("a", "b", "c"), tags=("X",))
+        return qtn.Tensor(rnd(rng, (2, 2, 2), dt), ("a", "e", "c"), tags=("X",))
 
     @reg("TN")
     def _(rng, dt):
         # a loop with a dangling tensor, one multibond, stored exponent
         ts = [qtn.Tensor(rnd(rng, (2, 3, 2), dt), ("a", "x", "y"), tags=("A", "P")),
-              qtn.Tensor(rnd(rng, (3, 2, 2), dt), ("x", "z", "b"), tags=("B", "P")),
+              qtn.Tensor(rnd(rng, (3, 2, 2), dt), ("x", "z", "e"), tags=("B", "P")),
               qtn.Tensor(rnd(rng, (2, 2, 2, 2), dt), ("y", "z", "w", "v"), tags=("C", "Q")),
               qtn.Tensor(rnd(rng, (2, 2, 3), dt), ("w", "v", "c"), tags=("D", "Q"))]
         tn = qtn.TensorNetwork(ts)
@@ -441,7 +505,7 @@ def zoo(qtn, quick):
     def _(rng, dt):
         ts = [qtn.Tensor(rnd(rng, (2, 2), dt), ("a", "x"), tags=("A",)),
               qtn.Tensor(rnd(rng, (2, 3, 1), dt), ("x", "y", "s"), tags=("B",)),
-              qtn.Tensor(rnd(rng, (3, 2), dt), ("y", "b"), tags=("C",))]
+              qtn.Tensor(rnd(rng, (3, 2), dt), ("y", "e"), tags=("C",))]
         return qtn.TensorNetwork(ts)
 
     @reg("GenVector")
@@ -450,7 +514,7 @@ def zoo(qtn, quick):
 
     @reg("GenOperator")
     def _(rng, dt):
-        return qtn.TN_from_edges_rand([(0, 1), (1, 2), (2, 0)], 2, phys_dim=2, site_ind_id=("k{}", "b{}"), dtype=dt,
+        return qtn.TN_from_edges_rand([(0, 1), (1, 2), (2, 0)], 2, phys_dim=2, site_ind_id=("k{}", "l{}"), dtype=dt,
                                       seed=int(rng.integers(1 << 30)))
 
     @reg("Gen")
@@ -502,3 +566,1417 @@ def zoo(qtn, quick):
         return qtn.TN3D_rand(2, 2, 2, 2, dtype=dt, seed=int(rng.integers(1 << 30)))
 
     return Z
+
+
+# ----------------------------------------------------------------------------------------------
+# argument table: "Owner.name" -> builder(x, rng, qtn, dt) -> list of Case
+# ----------------------------------------------------------------------------------------------
+
+
+class Case:
+    def __init__(self, *args, **kw):
+        self.args, self.kw = args, kw
+        self.random = False      # result depends on a random stream: only non-mutation + structure are checked
+        self.noperm = False      # result legitimately depends on the stored axis order (documented positional argument)
+        self.loose = 1.0         # tolerance multiplier (iterative / truncating routines)
+        self.gauge = False       # result is defined up to a gauge: compare values over the outer labels only
+        self.mut = ()            # positions / keywords of arguments the method is documented to update (gauges, info)
+        self.note = ""
+
+    def flag(self, **f):
+        for k, v in f.items():
+            setattr(self, k, v)
+        return self
+
+
+C = Case
+ARGS = {}
+
+
+def args_for(*keys):
+    def deco(f):
+        for k in keys:
+            ARGS[k] = f
+        return f
+    return deco
+
+
+def outer_of(x):
+    if is_tensor(x):
+        return list(x.inds)
+    occ = {}
+    for t in x.tensor_map.values():
+        for ix in t.inds:
+            occ[ix] = occ.get(ix, 0) + 1
+    return [ix for ix, c in occ.items() if c == 1]
+
+
+def inner_of(x):
+    occ = {}
+    for t in x.tensor_map.values():
+        for ix in t.inds:
+            occ[ix] = occ.get(ix, 0) + 1
+    return [ix for ix, c in occ.items() if c >= 2]
+
+
+def size_of(x, ix):
+    if is_tensor(x):
+        return x.shape[x.inds.index(ix)]
+    for t in x.tensor_map.values():
+        if ix in t.inds:
+            return t.shape[t.inds.index(ix)]
+    raise KeyError(ix)
+
+
+def need(cond, why="not applicable to this receiver"):
+    if not cond:
+        raise Skip(why)
+
+
+# ---- Tensor ----------------------------------------------------------------------------------
+
+@args_for("Tensor.astype", "TensorNetwork.astype")
+def _(x, rng, qtn, dt):
+    return [C("complex128"), C("complex64" if "64" in dt or "complex" in dt else "float32")]
+
+
+@args_for("Tensor.collapse_repeated", "Tensor.conj", "Tensor.negate", "Tensor.normalize", "TensorNetwork.negate",
+          "TensorNetwork.fuse_multibonds")
+def _(x, rng, qtn, dt):
+    return [C()]
+
+
+def has_multibonds(x):
+    ts = list(x.tensor_map.values())
+    return any(len([ix for ix in a.inds if ix in b.inds]) > 1 for a, b in itertools.combinations(ts, 2))
+
+
+def is_tree(x):
+    ts = list(x.tensor_map.values())
+    occ = {}
+    for t in ts:
+        for ix in t.inds:
+            occ.setdefault(ix, []).append(id(t))
+    if any(len(v) > 2 for v in occ.values()) or has_multibonds(x):
+        return False
+    nb = sum(1 for v in occ.values() if len(v) == 2)
+    # connected and acyclic
+    adj = {id(t): set() for t in ts}
+    for v in occ.values():
+        if len(v) == 2:
+            adj[v[0]].add(v[1])
+            adj[v[1]].add(v[0])
+    seen, stack = set(), [id(ts[0])] if ts else []
+    while stack:
+        u = stack.pop()
+        if u not in seen:
+            seen.add(u)
+            stack.extend(adj[u] - seen)
+    return len(seen) == len(ts) and nb == len(ts) - 1
+
+
+@args_for("TensorNetwork.balance_bonds")
+def _(x, rng, qtn, dt):
+    need(not has_multibonds(x), "balance_bonds needs single bonds")
+    return [C().flag(gauge=True)]
+
+
+@args_for("Tensor.direct_product")
+def _(x, rng, qtn, dt):
+    need(len(set(x.inds)) == len(x.inds))
+    shp = tuple(d + 1 for d in x.shape)
+    T2 = qtn.Tensor(rnd(rng, shp, dt), x.inds, tags="O")
+    s0 = x.inds[0]
+    shp2 = tuple(d if ix == s0 else d + 1 for ix, d in zip(x.inds, x.shape))
+    T3 = qtn.Tensor(rnd(rng, shp2, dt), x.inds[::-1] if False else x.inds, tags="O")
+    return [C(T2), C(T3, sum_inds=(s0,)), C(T3, sum_inds=s0)]
+
+
+@args_for("Tensor.flip")
+def _(x, rng, qtn, dt):
+    need(x.inds)
+    return [C(x.inds[0]), C(x.inds[-1])]
+
+
+@args_for("TensorNetwork.flip")
+def _(x, rng, qtn, dt):
+    o = outer_of(x) or inner_of(x)
+    need(o)
+    return [C([o[0]]), C(o[:2])]
+
+
+@args_for("Tensor.fuse")
+def _(x, rng, qtn, dt):
+    need(len(x.inds) >= 2 and len(set(x.inds)) == len(x.inds))
+    i = x.inds
+    return [C({"f": (i[0], i[1])}), C([("f", (i[-1], i[0]))]), C({"f": (i[1],)}), C({"f": i[::-1]}),
+            C({"f": (i[0],), "g": (i[-1],)})]
+
+
+@args_for("Tensor.gate")
+def _(x, rng, qtn, dt):
+    need(x.inds and len(set(x.inds)) == len(x.inds))
+    ix = x.inds[-1]
+    d = size_of(x, ix)
+    G = rnd(rng, (d, d), dt)
+    return [C(G, ix), C(G, ix, transpose=True), C(G, ix, preserve_inds=False).flag(note="preserve_inds=False")]
+
+
+@args_for("Tensor.isel", "TensorNetwork.isel")
+def _(x, rng, qtn, dt):
+    o = outer_of(x) + ([] if is_tensor(x) else inner_of(x))
+    need(o)
+    out = [C({o[0]: 0}), C({o[-1]: size_of(x, o[-1]) - 1}), C({o[0]: slice(0, 1)})]
+    if len(o) > 1:
+        out.append(C({o[0]: 0, o[1]: 0}))
+    return out
+
+
+@args_for("Tensor.unitize")
+def _(x, rng, qtn, dt):
+    need(len(x.inds) >= 2 and len(set(x.inds)) == len(x.inds))
+    return [C(left_inds=x.inds[:-1])]
+
+
+@args_for("Tensor.isometrize")
+def _(x, rng, qtn, dt):
+    need(len(x.inds) >= 2 and len(set(x.inds)) == len(x.inds))
+    li = (x.inds[0],)
+    allbut = x.inds[:-1]
+    out = [C(left_inds=allbut, method=m) for m in ("qr", "svd", "mgs", "exp", "cayley")]
+    out += [C(left_inds=li, method="svd"), C(left_inds=li, method="qr"), C(left_inds=allbut[::-1])]
+    if len(x.inds) >= 3:
+        # the right group has two labels and is fused in storage order: the parametrising methods are not covariant
+        out += [C(left_inds=li, method=m).flag(note="right group of >= 2 labels fused in storage order, method " + m)
+                for m in ("cayley", "exp")]
+    return out
+
+
+@args_for("Tensor.moveindex")
+def _(x, rng, qtn, dt):
+    need(x.inds and len(set(x.inds)) == len(x.inds))
+    return [C(x.inds[0], -1), C(x.inds[-1], 0), C(x.inds[0], 1 if len(x.inds) > 1 else 0)]
+
+
+@args_for("Tensor.multiply_index_diagonal")
+def _(x, rng, qtn, dt):
+    need(x.inds)
+    ix = x.inds[0]
+    return [C(ix, rnd(rng, (size_of(x, ix),), dt))]
+
+
+@args_for("Tensor.new_ind_pair_diag")
+def _(x, rng, qtn, dt):
+    need(x.inds and len(set(x.inds)) == len(x.inds))
+    return [C(x.inds[0], "nl", "nr"), C(x.inds[-1], "nl", "nr")]
+
+
+@args_for("Tensor.new_ind_pair_with_identity")
+def _(x, rng, qtn, dt):
+    return [C("nl", "nr", 2), C("nl", "nr", 3)]
+
+
+@args_for("Tensor.rand_reduce")
+def _(x, rng, qtn, dt):
+    need(x.inds)
+    return [C(x.inds[0], seed=7)]
+
+
+@args_for("Tensor.randomize", "TensorNetwork.randomize")
+def _(x, rng, qtn, dt):
+    return [C(seed=3).flag(noperm=True, note="random fill follows the storage order")]
+
+
+@args_for("Tensor.reindex", "TensorNetwork.reindex")
+def _(x, rng, qtn, dt):
+    o = outer_of(x)
+    need(o)
+    out = [C({o[0]: "new0"}), C({o[0]: "new0", "absent": "zz"})]
+    if not is_tensor(x):
+        i = inner_of(x)
+        if i:
+            out.append(C({i[0]: "newb", o[0]: "new0"}))
+    same = [ix for ix in o[1:] if size_of(x, ix) == size_of(x, o[0])]
+    if same and (is_tensor(x) or True):
+        out.append(C({o[0]: same[0], same[0]: o[0]}).flag(note="swap"))
+    return out
+
+
+@args_for("Tensor.retag", "TensorNetwork.retag")
+def _(x, rng, qtn, dt):
+    tags = list(x.tags)
+    need(tags)
+    out = [C({tags[0]: "NEWTAG"})]
+    if len(tags) > 1:
+        out.append(C({tags[0]: tags[1]}))
+        out.append(C({tags[0]: tags[1], tags[1]: tags[0]}))
+    return out
+
+
+@args_for("Tensor.squeeze")
+def _(x, rng, qtn, dt):
+    return [C(), C(include=x.inds[:2]), C(exclude=x.inds[:1])]
+
+
+@args_for("Tensor.sum_reduce", "TensorNetwork.sum_reduce")
+def _(x, rng, qtn, dt):
+    o = outer_of(x)
+    need(o)
+    return [C(o[0]), C(o[-1])]
+
+
+@args_for("Tensor.symmetrize")
+def _(x, rng, qtn, dt):
+    need(len(x.inds) >= 2 and x.shape[0] == x.shape[1] and len(set(x.inds)) == len(x.inds))
+    return [C(x.inds[0], x.inds[1])]
+
+
+@args_for("Tensor.to", "TensorNetwork.to")
+def _(x, rng, qtn, dt):
+    return [C(dtype="complex128"), C(backend="numpy")]
+
+
+@args_for("Tensor.trace")
+def _(x, rng, qtn, dt):
+    need(len(x.inds) >= 2 and x.shape[0] == x.shape[1] and len(set(x.inds)) == len(x.inds))
+    return [C(x.inds[0], x.inds[1]), C([x.inds[0]], [x.inds[1]]), C(x.inds[0], x.inds[1], preserve_tensor=True)]
+
+
+@args_for("Tensor.transpose")
+def _(x, rng, qtn, dt):
+    need(len(set(x.inds)) == len(x.inds))
+    return [C(*x.inds[::-1]), C(*x.inds)]
+
+
+@args_for("Tensor.transpose_like")
+def _(x, rng, qtn, dt):
+    need(len(set(x.inds)) == len(x.inds))
+    other = qtn.Tensor(rnd(rng, x.shape[::-1], dt), x.inds[::-1])
+    return [C(other)]
+
+
+@args_for("Tensor.unfuse")
+def _(x, rng, qtn, dt):
+    need(x.inds and len(set(x.inds)) == len(x.inds))
+    ix = x.inds[0]
+    d = size_of(x, ix)
+    out = [C({ix: ("u1", "u2")}, {ix: (1, d)}), C({ix: ("u1", "u2")}, {ix: (d, 1)})]
+    if d % 2 == 0 and d > 2:
+        out.append(C({ix: ("u1", "u2")}, {ix: (2, d // 2)}))
+    return out
+
+
+@args_for("Tensor.vector_reduce", "TensorNetwork.vector_reduce")
+def _(x, rng, qtn, dt):
+    o = outer_of(x)
+    need(o)
+    return [C(o[0], rnd(rng, (size_of(x, o[0]),), dt))]
+
+
+# ----------------------------------------------------------------------------------------------
+# the engine
+# ----------------------------------------------------------------------------------------------
+
+K_PLAIN = "the plain (non-in-place) spelling leaves its receiver and its tensor / network arguments observably unchanged (arrays read-only)"
+K_PAIR = "f(x) is the same labelled object as f_(copy(x)) (tensor by tensor modulo generated label names; same numpy.einsum value)"
+K_PERM = "f(x) is invariant under random permutations of the stored axes of every tensor of x and of tensor arguments"
+K_INPL = "the in-place spelling f_(y) on a copy y leaves the original x (which shares its arrays) unchanged"
+K_COVER = "reflection: every method with an `inplace` parameter / every f_ alias has an argument-table entry (not exercised otherwise)"
+
+
+def _fresh(case):
+    """documented-mutable arguments (gauges, info dicts) are handed over as fresh deep copies on every call"""
+    import copy
+
+    if not case.mut:
+        return case.args, dict(case.kw)
+    return (tuple(copy.deepcopy(a) if k in case.mut else a for k, a in enumerate(case.args)),
+            {k: (copy.deepcopy(v) if k in case.mut else v) for k, v in case.kw.items()})
+
+
+def call_plain(x, rec, case):
+    f = getattr(x, rec["name"])
+    args, kw = _fresh(case)
+    if rec["inplace_default"] is not False:
+        kw["inplace"] = False  # in-place is the documented default: ask for the copy explicitly
+    return f(*args, **kw)
+
+
+def call_inplace(y, rec, case):
+    args, kw = _fresh(case)
+    if rec["alias"]:
+        return getattr(y, rec["alias"])(*args, **kw)
+    return getattr(y, rec["name"])(*args, **dict(kw, inplace=True))
+
+
+def cases_for(rec, x, rng, qtn, dt):
+    key = f"{rec['owner']}.{rec['name']}"
+    b = ARGS.get(key)
+    if b is None:
+        if rec["sig"] is not None and not required_params(rec):
+            return [C()]
+        return None
+    return b(x, rng, qtn, dt)
+
+
+def exercise(cx, qtn, rname, build, rec, dt, nperm, seed_base):
+    """all contracts for one (receiver, method); returns number of cases exercised"""
+    key = f"{rec['owner']}.{rec['name']}"
+    srng = np.random.default_rng([seed_base, abs(hash(rname)) % (1 << 30) if False else sum(map(ord, rname)), sum(map(ord, key))])
+    x = build(srng, dt)
+    try:
+        cases = cases_for(rec, x, srng, qtn, dt)
+    except Skip:
+        return 0
+    if cases is None:
+        return None
+    freeze(x)
+    n = 0
+    for i, case in enumerate(cases):
+        prng = np.random.default_rng([seed_base, i, sum(map(ord, rname + key))])
+        params = dict(receiver=rname, cls=type(x).__name__, method=key, case=i, dtype=dt, alias=rec["alias"],
+                      mispaired_alias=bool(rec["alias"]) and not rec["alias_ok"], note=case.note)
+        freeze(case.args)
+        freeze(case.kw)
+        holder = {}
+
+        def t_plain(case=case, holder=holder):
+            def afp():
+                return fingerprint(([a for k, a in enumerate(case.args) if k not in case.mut],
+                                    {k: v for k, v in case.kw.items() if k not in case.mut}))
+            f0 = fingerprint(x)
+            a0 = afp()
+            try:
+                r = call_plain(x, rec, case)
+            except Exception as ex:  # noqa
+                msg = str(ex)
+                if "read-only" in msg or "readonly" in msg or "not writeable" in msg:
+                    return f"in-place write into an array the receiver shares with its copies: {type(ex).__name__}: {msg[:200]}"
+                e = fp_diff(f0, fingerprint(x), "receiver (although the call raised)") or fp_diff(a0, afp(), "arguments")
+                if e:
+                    return e
+                # outside the method's domain for this receiver only if the in-place spelling refuses it too
+                try:
+                    call_inplace(x.copy(), rec, case)
+                except Exception:  # noqa
+                    raise ex
+                return f"the plain spelling raises {type(ex).__name__}: {msg[:160]} -- but f_(copy(x)) accepts the same arguments"
+            holder["r"] = r
+            e = fp_diff(f0, fingerprint(x), "receiver") or fp_diff(a0, afp(), "arguments")
+            if e:
+                return e
+            if r is x:
+                return "the plain spelling returned the receiver itself"
+            if r is None:
+                return "the plain spelling returned None (the modified copy is lost)"
+            return None
+
+        # both spellings refusing the arguments = outside the method's domain for this receiver (counted as rejection)
+        ok = cx.check(K_PLAIN, params, t_plain, allow_reject=True, crash_is_violation=False)
+        n += 1
+        if ok != "ok" and cx.only_key is None:
+            continue
+        if "r" not in holder:
+            # replaying another contract of this case: recompute the plain result silently
+            try:
+                holder["r"] = call_plain(x, rec, case)
+            except Exception:  # noqa
+                continue
+        r = holder["r"]
+
+        def t_pair(case=case, r=r):
+            y = x.copy()
+            f0 = fingerprint(x)
+            r_ = call_inplace(y, rec, case)
+            e = fp_diff(f0, fingerprint(x), "original after f_ on its copy")
+            if e:
+                return ("INPLACE", e)
+            if r_ is None:
+                r_ = y
+            if case.random:
+                return same_structure(r, r_, "f(x) vs f_(copy(x))")
+            return same_labelled_object(r, r_, "f(x) vs f_(copy(x))")
+
+        res = {}
+
+        def t_pair1():
+            res["v"] = t_pair()
+            v = res["v"]
+            return None if (v is None or isinstance(v, tuple)) else v
+
+        cx.check(K_PAIR, params, t_pair1)
+        cx.check(K_INPL, params, lambda: res["v"][1] if isinstance(res.get("v"), tuple) else None)
+        if case.noperm or case.random:
+            continue
+        for k in range(nperm):
+            xp = freeze(permute_axes(x, prng))
+            ap = freeze(permute_axes(case.args, prng))
+            kp = freeze(permute_axes(case.kw, prng))
+
+            def t_perm(xp=xp, ap=ap, kp=kp, case=case, r=r):
+                c2 = Case(*ap, **kp).flag(mut=case.mut)
+                rp = call_plain(xp, rec, c2)
+                return same_labelled_value(r, rp, "f(x) vs f(x with permuted axes)", loose=case.loose,
+                                           check_structure=not case.gauge)
+
+            cx.check(K_PERM, dict(params, perm=k), t_perm)
+    return n
+
+
+def same_structure(a, b, what):
+    if (is_tensor(a) or is_tn(a)) and (is_tensor(b) or is_tn(b)):
+        if type(a).__name__ != type(b).__name__:
+            return f"{what}: class differs"
+        if structure(a) != structure(b):
+            return f"{what}: label/tag structure differs"
+        return None
+    if isinstance(a, (list, tuple)) and isinstance(b, (list, tuple)) and len(a) == len(b):
+        for u, v in zip(a, b):
+            e = same_structure(u, v, what)
+            if e:
+                return e
+    return None
+
+
+# ---- TensorNetwork (generic; applied to every network class) -----------------------------------
+
+def tags_of(x):
+    out = []
+    for t in x.tensor_map.values():
+        for g in t.tags:
+            if g not in out:
+                out.append(g)
+    return out
+
+
+def unique_tags(x):
+    """tags carried by exactly one tensor, in tensor order"""
+    cnt = {}
+    for t in x.tensor_map.values():
+        for g in t.tags:
+            cnt[g] = cnt.get(g, 0) + 1
+    return [g for g in tags_of(x) if cnt[g] == 1]
+
+
+def bonded_pair(x):
+    """(tagA, tagB, bond) for two tensors with unique tags joined by exactly one plain bond"""
+    ut = unique_tags(x)
+    byt = {g: t for t in x.tensor_map.values() for g in t.tags if g in ut}
+    occ = {}
+    for t in x.tensor_map.values():
+        for ix in t.inds:
+            occ[ix] = occ.get(ix, 0) + 1
+    for a, b in itertools.combinations(ut, 2):
+        if byt[a] is byt[b]:
+            continue
+        sh = [ix for ix in byt[a].inds if ix in byt[b].inds]
+        if len(sh) == 1 and occ[sh[0]] == 2:
+            return a, b, sh[0]
+    raise Skip("no pair of uniquely tagged tensors joined by a single bond")
+
+
+@args_for("TensorNetwork.antidiag_gauge", "TensorNetwork.column_reduce", "TensorNetwork.diagonal_reduce",
+          "TensorNetwork.split_simplify", "TensorNetwork.rank_simplify", "TensorNetwork.pair_simplify",
+          "TensorNetwork.loop_simplify", "TensorNetwork.full_simplify", "TensorNetwork.hyperinds_resolve")
+def _(x, rng, qtn, dt):
+    return [C().flag(gauge=True)]
+
+
+@args_for("TensorNetwork.compress_simplify")
+def _(x, rng, qtn, dt):
+    return [C().flag(gauge=True, loose=1e3), C(equalize_norms=False, final_resolve=True).flag(gauge=True, loose=1e3)]
+
+
+@args_for("TensorNetwork.canonize_around")
+def _(x, rng, qtn, dt):
+    g = unique_tags(x)
+    need(g)
+    return [C(g[0]).flag(gauge=True), C(g[-1], max_distance=1, absorb="left").flag(gauge=True)]
+
+
+@args_for("TensorNetwork.gauge_local")
+def _(x, rng, qtn, dt):
+    g = unique_tags(x)
+    need(g and inner_of(x))
+    return [C(g[0]).flag(gauge=True), C(g[0], method="simple", max_distance=2).flag(gauge=True, loose=1e3)]
+
+
+@args_for("TensorNetwork.compress_all", "TensorNetwork.compress_all_1d", "TensorNetwork.compress_all_simple")
+def _(x, rng, qtn, dt):
+    need(inner_of(x))
+    return [C(max_bond=2).flag(gauge=True, loose=1e3), C().flag(gauge=True, loose=1e3)]
+
+
+@args_for("TensorNetwork.compress_all_tree")
+def _(x, rng, qtn, dt):
+    need(inner_of(x) and is_tree(x), "assumes a tree")
+    return [C(max_bond=2).flag(gauge=True, loose=1e3)]
+
+
+@args_for("TensorNetwork.conj")
+def _(x, rng, qtn, dt):
+    return [C(), C(mangle_inner=True), C(mangle_inner="*")]
+
+
+@args_for("TensorNetwork.contract")
+def _(x, rng, qtn, dt):
+    g = tags_of(x)
+    out = [C(), C(all), C(..., optimize="greedy")]
+    if len(g) >= 2:
+        out += [C([g[0], g[1]]), C(g[0])]
+    o = outer_of(x)
+    if o:
+        out.append(C(output_inds=o[::-1]))
+    return out
+
+
+@args_for("TensorNetwork.contract_tags")
+def _(x, rng, qtn, dt):
+    g = tags_of(x)
+    need(g)
+    out = [C(g[0]), C(g[:2], which="any")]
+    if len(g) >= 2:
+        out.append(C(g[:2], which="all") if any(set(g[:2]) <= set(t.tags) for t in x.tensor_map.values()) else C(g[-1]))
+    return out
+
+
+@args_for("TensorNetwork.contract_cumulative")
+def _(x, rng, qtn, dt):
+    g = unique_tags(x)
+    need(len(g) >= 2)
+    return [C(g[:2]), C(g)]
+
+
+@args_for("TensorNetwork.contract_around")
+def _(x, rng, qtn, dt):
+    g = unique_tags(x)
+    need(g and not outer_of(x) or g)
+    return [C(g[0], max_bond=4).flag(gauge=True, loose=1e3)]
+
+
+@args_for("TensorNetwork.contract_compressed")
+def _(x, rng, qtn, dt):
+    # untruncated (the order of compressions follows the path, which may follow the storage order)
+    return [C("greedy", max_bond=256, cutoff=0.0).flag(gauge=True, loose=1e3)]
+
+
+@args_for("TensorNetwork.equalize_norms")
+def _(x, rng, qtn, dt):
+    return [C().flag(gauge=True), C(1.0).flag(gauge=True)]
+
+
+@args_for("TensorNetwork.expand_bond_dimension", "TensorNetwork1DFlat.expand_bond_dimension",
+          "TensorNetwork2DFlat.expand_bond_dimension")
+def _(x, rng, qtn, dt):
+    need(inner_of(x))
+    return [C(4), C(5, inds_to_expand=inner_of(x)[:1])]
+
+
+@args_for("TensorNetwork.gate_inds")
+def _(x, rng, qtn, dt):
+    o = outer_of(x)
+    need(o)
+    d0 = size_of(x, o[0])
+    out = [C(rnd(rng, (d0, d0), dt), [o[0]]), C(rnd(rng, (d0, d0), dt), [o[0]], contract=True, tags="G")]
+    two = None
+    for a, b in itertools.combinations(o, 2):
+        ta = [t for t in x.tensor_map.values() if a in t.inds][0]
+        tb = [t for t in x.tensor_map.values() if b in t.inds][0]
+        sh = [ix for ix in ta.inds if ix in tb.inds]
+        if ta is not tb and len(sh) == 1:
+            two = (a, b)
+            break
+    if two:
+        da, db = size_of(x, two[0]), size_of(x, two[1])
+        G = rnd(rng, (da * db, da * db), dt)
+        for mode in (False, True, "split", "reduce-split", "split-gate", "swap-split-gate", "auto-split-gate"):
+            out.append(C(G, two, contract=mode).flag(gauge=mode not in (False, True), note=f"contract={mode}"))
+        out.append(C(G.reshape(da, db, da, db), two[::-1], contract=False).flag(note="reversed targets"))
+    return out
+
+
+@args_for("TensorNetwork.gate_inds_with_tn")
+def _(x, rng, qtn, dt):
+    o = outer_of(x)
+    need(o)
+    d0 = size_of(x, o[0])
+    g = qtn.Tensor(rnd(rng, (d0, d0), dt), ("go", "gi"), tags="G")
+    g2 = qtn.TensorNetwork([qtn.Tensor(rnd(rng, (d0, 2), dt), ("go", "gb"), tags="G1"),
+                            qtn.Tensor(rnd(rng, (2, d0), dt), ("gb", "gi"), tags="G2")])
+    return [C(o[0], g, "gi", "go"), C([o[0]], g2, ["gi"], ["go"]), C(["absent"], g, ["gi"], ["go"])]
+
+
+@args_for("TensorNetwork.gate_sandwich_inds")
+def _(x, rng, qtn, dt):
+    o = outer_of(x)
+    same = [(a, b) for a, b in itertools.combinations(o, 2) if size_of(x, a) == size_of(x, b)]
+    need(same)
+    a, b = same[0]
+    d = size_of(x, a)
+    return [C(rnd(rng, (d, d), dt), [a], [b]), C(rnd(rng, (d, d), dt), [a], [b], contract=True)]
+
+
+@args_for("TensorNetwork.gauge_all_canonize", "TensorNetwork.gauge_all_simple", "TensorNetwork.gauge_all_belief_propagation")
+def _(x, rng, qtn, dt):
+    need(inner_of(x))
+    return [C(max_iterations=2).flag(gauge=True, loose=1e3)]
+
+
+@args_for("TensorNetwork.gauge_all")
+def _(x, rng, qtn, dt):
+    need(inner_of(x))
+    return [C().flag(gauge=True, loose=1e3), C("simple", max_iterations=2).flag(gauge=True, loose=1e3)]
+
+
+@args_for("TensorNetwork.gauge_all_random")
+def _(x, rng, qtn, dt):
+    need(inner_of(x))
+    return [C(seed=3).flag(gauge=True, noperm=True, loose=1e3, note="random gauges follow the bond order")]
+
+
+@args_for("TensorNetwork.insert_compressor_between_regions")
+def _(x, rng, qtn, dt):
+    a, b, _ = bonded_pair(x)
+    return [C([a], [b], max_bond=2).flag(gauge=True, loose=1e3)]
+
+
+@args_for("TensorNetwork.insert_operator")
+def _(x, rng, qtn, dt):
+    a, b, bond = bonded_pair(x)
+    d = size_of(x, bond)
+    return [C(rnd(rng, (d, d), dt), a, b), C(rnd(rng, (d, d), dt), b, a, tags="OP")]
+
+
+@args_for("TensorNetwork.drape_bond_between")
+def _(x, rng, qtn, dt):
+    a, b, _ = bonded_pair(x)
+    others = [g for g in unique_tags(x) if g not in (a, b)]
+    need(others)
+    return [C(a, b, others[0])]
+
+
+@args_for("TensorNetwork.isometrize", "TensorNetwork.unitize")
+def _(x, rng, qtn, dt):
+    return [C(allow_no_left_inds=True)]
+
+
+@args_for("TensorNetwork.multiply")
+def _(x, rng, qtn, dt):
+    return [C(2.5), C(-1.5, spread_over=2), C(0.5 + (0.5j if "complex" in dt else 0.0), spread_over="all")]
+
+
+@args_for("TensorNetwork.multiply_each")
+def _(x, rng, qtn, dt):
+    return [C(1.5)]
+
+
+@args_for("TensorNetwork.partition", "TensorNetwork.partition_tensors")
+def _(x, rng, qtn, dt):
+    g = tags_of(x)
+    need(g)
+    return [C(g[0]), C(g[:2], which="all"), C(g[:2], which="any")]
+
+
+@args_for("TensorNetwork.replace_with_identity")
+def _(x, rng, qtn, dt):
+    # a region (one uniquely tagged tensor) whose boundary consists of exactly two labels of equal size
+    o = set(outer_of(x))
+    out = []
+    for tag in unique_tags(x):
+        t = x[tag]
+        if len(t.inds) == 2 and t.shape[0] == t.shape[1]:
+            touches_outer = bool(o.intersection(t.inds))
+            out.append(C(tag).flag(gauge=True, note="a leg of the region is an outer label of the network" if touches_outer
+                                   else "both legs of the region are bonds"))
+    need(out, "no rank-2 square tensor")
+    return out[:3]
+
+
+@args_for("TensorNetwork.replace_with_svd")
+def _(x, rng, qtn, dt):
+    g = unique_tags(x)
+    need(g)
+    t = x[g[0]]
+    need(len(t.inds) >= 2)
+    return [C(g[0], t.inds[:1], 1e-10, method="svd").flag(gauge=True, loose=1e3)]
+
+
+@args_for("TensorNetwork.squeeze")
+def _(x, rng, qtn, dt):
+    return [C(), C(fuse=True), C(exclude=outer_of(x))]
+
+
+@args_for("TensorNetwork.view_as")
+def _(x, rng, qtn, dt):
+    return [C(qtn.TensorNetwork)]
+
+
+@args_for("TensorNetwork.view_like")
+def _(x, rng, qtn, dt):
+    return [C(x.copy()), C(qtn.TensorNetwork([]))]
+
+
+@args_for("TensorNetwork.fit")
+def _(x, rng, qtn, dt):
+    need(outer_of(x) and len(x.tensor_map) <= 6)
+    target = x.copy()
+    for t in target.tensor_map.values():
+        t.modify(data=rnd(rng, t.shape, dt))
+    need(len(x.tensor_map) > 1)
+    return [C(target, steps=2, progbar=False, enforce_pos=True).flag(gauge=True, loose=1e6)]
+
+
+# ---- arbitrary geometry: TensorNetworkGen / Vector / Operator ------------------------------------
+
+def like_vector(x, rng, qtn, dt):
+    """a vector network with the geometry / site labels of x but new random data"""
+    y = x.copy()
+    for t in y.tensor_map.values():
+        t.modify(data=rnd(rng, t.shape, dt))
+    return y
+
+
+def phys(x, site):
+    return size_of(x, x.site_ind(site))
+
+
+def operator_like(x, rng, qtn, dt, sites=None, lower=None):
+    """an operator network on the sites of the vector x: lower labels = x's site labels (or ``lower``), upper 'u..'"""
+    if type(x)._NDIMS == 2 and sites is None:
+        return qtn.PEPO.rand(x.Lx, x.Ly, 2, phys_dim=phys(x, (0, 0)), dtype=dt, seed=int(rng.integers(1 << 30)),
+                             upper_ind_id="u{},{}", lower_ind_id=x.site_ind_id if lower is None else lower)
+    need(type(x)._NDIMS == 1, "no operator class for this geometry")
+    sites = list(x.sites) if sites is None else list(sites)
+    ts = []
+    for k, s in enumerate(sites):
+        d = phys(x, s)
+        inds = ["u{}".format(s), x.site_ind(s) if lower is None else lower.format(s)]
+        shape = [d, d]
+        if k > 0:
+            inds.append(f"ob{k - 1}")
+            shape.append(2)
+        if k < len(sites) - 1:
+            inds.append(f"ob{k}")
+            shape.append(2)
+        ts.append(qtn.Tensor(rnd(rng, shape, dt), inds, tags=x.site_tag(s)))
+    tn = qtn.TensorNetwork(ts)
+    return tn.view_as_(qtn.TensorNetworkGenOperator, sites=sites, site_tag_id=x.site_tag_id, upper_ind_id="u{}",
+                       lower_ind_id=x.site_ind_id if lower is None else lower)
+
+
+def vector_under(x, rng, qtn, dt):
+    """a vector network living on the lower labels of the operator x"""
+    if type(x)._NDIMS == 2:
+        return qtn.PEPS.rand(x.Lx, x.Ly, 2, phys_dim=size_of(x, x.lower_ind((0, 0))), dtype=dt, seed=int(rng.integers(1 << 30)),
+                             site_ind_id=x.lower_ind_id)
+    need(type(x)._NDIMS == 1, "no vector class for this geometry")
+    sites = list(x.sites)
+    ts = []
+    for k, s in enumerate(sites):
+        d = size_of(x, x.lower_ind(s))
+        inds, shape = [x.lower_ind(s)], [d]
+        if k > 0:
+            inds.append(f"vb{k - 1}")
+            shape.append(2)
+        if k < len(sites) - 1:
+            inds.append(f"vb{k}")
+            shape.append(2)
+        ts.append(qtn.Tensor(rnd(rng, shape, dt), inds, tags=x.site_tag(s)))
+    return qtn.TensorNetwork(ts).view_as_(qtn.TensorNetworkGenVector, sites=sites, site_tag_id=x.site_tag_id,
+                                          site_ind_id=x.lower_ind_id)
+
+
+@args_for("TensorNetworkGen.flatten", "TensorNetwork1D.flatten", "TensorNetwork2D.flatten", "TensorNetwork3D.flatten")
+def _(x, rng, qtn, dt):
+    return [C(), C(fuse_multibonds=False)]
+
+
+@args_for("TensorNetworkGen.retag_all")
+def _(x, rng, qtn, dt):
+    n = x.site_tag_id.count("{}")
+    return [C("Z" + ",".join(["{}"] * n))]
+
+
+@args_for("TensorNetworkGen.retag_sites")
+def _(x, rng, qtn, dt):
+    n = x.site_tag_id.count("{}")
+    new = "Z" + ",".join(["{}"] * n)
+    return [C(new), C(new, where=list(x.sites)[:1])]
+
+
+@args_for("TensorNetworkGenVector.reindex_all", "TensorNetworkGenVector.reindex_sites", "TensorNetwork1DVector.reindex_sites",
+          "TensorNetwork2DVector.reindex_sites", "TensorNetwork3DVector.reindex_sites")
+def _(x, rng, qtn, dt):
+    n = x.site_ind_id.count("{}")
+    new = "q" + ",".join(["{}"] * n)
+    out = [C(new)]
+    return out
+
+
+@args_for("TensorNetworkGenOperator.reindex_lower_sites", "TensorNetworkGenOperator.reindex_upper_sites",
+          "TensorNetwork2DOperator.reindex_lower_sites", "TensorNetwork2DOperator.reindex_upper_sites")
+def _(x, rng, qtn, dt):
+    n = x.upper_ind_id.count("{}")
+    new = "q" + ",".join(["{}"] * n)
+    return [C(new), C(new, where=list(x.sites)[:1])]
+
+
+@args_for("TensorNetwork1DOperator.reindex_lower_sites", "TensorNetwork1DOperator.reindex_upper_sites")
+def _(x, rng, qtn, dt):
+    return [C("q{}"), C("q{}", where=slice(0, 1)), C("q{}", where=slice(1, x.L))]
+
+
+def _gate_cases(x, rng, dt, modes2, extra=None):
+    sites = list(x.sites)
+    extra = extra or {}
+    d0 = phys(x, sites[0]) if hasattr(x, "site_ind") else size_of(x, x.upper_ind(sites[0]))
+    out = [C(rnd(rng, (d0, d0), dt), sites[0], **extra), C(rnd(rng, (d0, d0), dt), (sites[-1],), contract=True, **extra)]
+    if len(sites) >= 2:
+        pair = None
+        for a, b in itertools.combinations(sites, 2):
+            ta, tb = x[x.site_tag(a)], x[x.site_tag(b)]
+            if is_tensor(ta) and is_tensor(tb) and len([ix for ix in ta.inds if ix in tb.inds]) == 1:
+                pair = (a, b)
+                break
+        if pair:
+            da = phys(x, pair[0]) if hasattr(x, "site_ind") else size_of(x, x.upper_ind(pair[0]))
+            db = phys(x, pair[1]) if hasattr(x, "site_ind") else size_of(x, x.upper_ind(pair[1]))
+            G = rnd(rng, (da * db, da * db), dt)
+            for m in modes2:
+                out.append(C(G, pair, contract=m, **extra).flag(gauge=m not in (False, True), note=f"contract={m}"))
+            out.append(C(G, pair[::-1], contract=False, **extra).flag(note="reversed sites"))
+    return out
+
+
+@args_for("TensorNetworkGenVector.gate", "TensorNetwork2DVector.gate", "TensorNetwork3DVector.gate")
+def _(x, rng, qtn, dt):
+    return _gate_cases(x, rng, dt, (False, True, "split", "reduce-split"))
+
+
+@args_for("TensorNetworkGenOperator.gate", "TensorNetworkGenOperator.gate_upper", "TensorNetworkGenOperator.gate_lower",
+          "TensorNetworkGenOperator.gate_sandwich")
+def _(x, rng, qtn, dt):
+    return _gate_cases(x, rng, dt, (False, True, "split"))
+
+
+@args_for("TensorNetworkGenVector.gate_simple", "TensorNetworkGenOperator.gate_simple")
+def _(x, rng, qtn, dt):
+    sites = list(x.sites)
+    need(len(sites) >= 2 and hasattr(x, "site_ind"))
+    pair = None
+    for a, b in itertools.combinations(sites, 2):
+        ta, tb = x[x.site_tag(a)], x[x.site_tag(b)]
+        if is_tensor(ta) and is_tensor(tb) and len([ix for ix in ta.inds if ix in tb.inds]) == 1:
+            pair = (a, b)
+            break
+    need(pair)
+    da, db = phys(x, pair[0]), phys(x, pair[1])
+    G = rnd(rng, (da * db, da * db), dt)
+    return [C(G, pair, {}).flag(gauge=True, loose=1e3, mut=(2,)),
+            C(rnd(rng, (da, da), dt), (pair[0],), {}).flag(gauge=True, loose=1e3, mut=(2,))]
+
+
+@args_for("TensorNetworkGenVector.gate_with_op_lazy")
+def _(x, rng, qtn, dt):
+    A = operator_like(x, rng, qtn, dt)
+    return [C(A), C(A, transpose=True)]
+
+
+@args_for("TensorNetworkGenOperator.gate_upper_with_op_lazy", "TensorNetworkGenOperator.gate_lower_with_op_lazy")
+def _(x, rng, qtn, dt):
+    A = like_vector(x, rng, qtn, dt)
+    return [C(A), C(A, transpose=True)]
+
+
+@args_for("TensorNetworkGenOperator.gate_sandwich_with_op_lazy")
+def _(x, rng, qtn, dt):
+    return [C(like_vector(x, rng, qtn, dt))]
+
+
+@args_for("TensorNetworkGenOperator.apply", "TensorNetworkGenOperator.dot")
+def _(x, rng, qtn, dt):
+    # a vector on the lower labels of x, and another operator
+    v = vector_under(x, rng, qtn, dt)
+    out = [C(v).flag(gauge=True), C(v, contract=False).flag(gauge=True), C(like_vector(x, rng, qtn, dt)).flag(gauge=True)]
+    return out
+
+
+@args_for("TensorNetworkGenOperator.partial_transpose")
+def _(x, rng, qtn, dt):
+    s = list(x.sites)
+    return [C(s[:1]), C(s)]
+
+
+@args_for("TensorNetworkGen.align")
+def _(x, rng, qtn, dt):
+    need(hasattr(x, "site_ind_id") or hasattr(x, "upper_ind_id"), "no site labels")
+    n = (x.site_ind_id if hasattr(x, "site_ind_id") else x.upper_ind_id).count("{}")
+    w = "w" + ",".join(["{}"] * n)
+    if hasattr(x, "site_ind"):
+        A = operator_like(x, rng, qtn, dt, lower=w)
+        y = like_vector(x, rng, qtn, dt)
+        return [C(A, y), C(y), C(A, y, ind_ids=(x.site_ind_id, "mid" + w[1:]))]
+    if hasattr(x, "upper_ind"):
+        B = like_vector(x, rng, qtn, dt)
+        B.lower_ind_id = w
+        return [C(B), C(B, trace=True)]
+    raise Skip("no site labels")
+
+
+# ---- 1D -----------------------------------------------------------------------------------------
+
+def mpo_like(x, rng, qtn, dt, sites=None):
+    L = x.L
+    if sites is None:
+        return qtn.MPO_rand(L, 2, phys_dim=phys(x, 0), dtype=dt, cyclic=bool(getattr(x, "cyclic", False)),
+                            seed=int(rng.integers(1 << 30)), upper_ind_id="u{}", lower_ind_id=x.site_ind_id)
+    return qtn.MPO_rand(L, 2, phys_dim=phys(x, sites[0]), dtype=dt, seed=int(rng.integers(1 << 30)), sites=sites)
+
+
+@args_for("MatrixProductState.add_MPS")
+def _(x, rng, qtn, dt):
+    y = like_vector(x, rng, qtn, dt)
+    return [C(y), C(y, compress=True, cutoff=0.0).flag(gauge=True)]
+
+
+@args_for("MatrixProductOperator.add_MPO")
+def _(x, rng, qtn, dt):
+    y = like_vector(x, rng, qtn, dt)
+    return [C(y), C(y, compress=True, cutoff=0.0).flag(gauge=True)]
+
+
+@args_for("TensorNetwork1DFlat.as_cyclic")
+def _(x, rng, qtn, dt):
+    return [C()]
+
+
+@args_for("TensorNetwork1DFlat.canonicalize")
+def _(x, rng, qtn, dt):
+    need(not x.cyclic)
+    L = x.L
+    out = [C(0).flag(gauge=True), C(L - 1).flag(gauge=True), C((0, L - 1)).flag(gauge=True)]
+    if L > 2:
+        out.append(C((2, 1)).flag(gauge=True, note="reversed pair"))
+    return out
+
+
+@args_for("TensorNetwork1DFlat.left_canonicalize", "TensorNetwork1DFlat.right_canonicalize")
+def _(x, rng, qtn, dt):
+    need(not x.cyclic)
+    return [C().flag(gauge=True), C(normalize=True).flag(gauge=True)]
+
+
+@args_for("TensorNetwork1DFlat.expand_bond_dimension")
+def _(x, rng, qtn, dt):
+    need(x.L > 1)
+    return [C(5), C(4, create_bond=True)]
+
+
+@args_for("TensorNetwork1DFlat.swap_site_to")
+def _(x, rng, qtn, dt):
+    need(x.L >= 3 and not x.cyclic and hasattr(x, "site_ind"))
+    return [C(0, 2).flag(gauge=True), C(x.L - 1, 0, cutoff=0.0).flag(gauge=True)]
+
+
+@args_for("TensorNetwork1DFlat.swap_sites_with_compress")
+def _(x, rng, qtn, dt):
+    need(x.L >= 2 and not x.cyclic and hasattr(x, "site_ind"))
+    return [C(0, 1).flag(gauge=True), C(1, 0, cutoff=0.0).flag(gauge=True)]
+
+
+def local_terms(x, rng, dt):
+    terms = {}
+    for i in range(x.L - 1):
+        d0, d1 = phys(x, i), phys(x, i + 1)
+        terms[(i, i + 1)] = rnd(rng, (d0 * d1, d0 * d1), dt)
+    terms[(0,)] = rnd(rng, (phys(x, 0), phys(x, 0)), dt)
+    return terms
+
+
+@args_for("MatrixProductState.compute_local_expectation", "MatrixProductState.compute_local_expectation_canonical")
+def _(x, rng, qtn, dt):
+    need(not x.cyclic and x.L >= 2)
+    terms = local_terms(x, rng, dt)
+    return [C(terms), C(terms, normalized=False, return_all=True)]
+
+
+@args_for("TensorNetwork1D.contract_structured")
+def _(x, rng, qtn, dt):
+    need(x.L >= 2)
+    return [C(slice(0, 2)), C(...), C(slice(x.L - 1, 0, -1) if not getattr(x, "cyclic", False) else slice(0, x.L))]
+
+
+@args_for("MatrixProductState.flip")
+def _(x, rng, qtn, dt):
+    return [C()]
+
+
+@args_for("TensorNetwork1DVector.gate")
+def _(x, rng, qtn, dt):
+    L = x.L
+    d0 = phys(x, 0)
+    out = [C(rnd(rng, (d0, d0), dt), 0), C(rnd(rng, (d0, d0), dt), (L - 1,), contract=True)]
+    if L >= 2:
+        d1 = phys(x, 1)
+        G = rnd(rng, (d0 * d1, d0 * d1), dt)
+        cyc = bool(getattr(x, "cyclic", False))
+        is_mps = type(x).__name__ == "MatrixProductState"
+        for m in (False, True, "split", "reduce-split") + (("swap+split",) if is_mps else ()) if not cyc else (False, True, "split"):
+            out.append(C(G, (0, 1), contract=m).flag(gauge=m not in (False, True), note=f"contract={m}"))
+        out.append(C(G, (1, 0), contract=False).flag(note="reversed sites"))
+        if L >= 3 and not cyc and is_mps:
+            d2 = phys(x, 2)
+            out.append(C(rnd(rng, (d0 * d2, d0 * d2), dt), (2, 0), contract="swap+split").flag(gauge=True, note="distant reversed"))
+    return out
+
+
+@args_for("MatrixProductState.gate_split")
+def _(x, rng, qtn, dt):
+    need(x.L >= 2 and not x.cyclic)
+    d0, d1 = phys(x, 0), phys(x, 1)
+    G = rnd(rng, (d0 * d1, d0 * d1), dt)
+    return [C(G, (0, 1)).flag(gauge=True), C(G, (1, 0), cutoff=0.0).flag(gauge=True, note="reversed sites")]
+
+
+@args_for("MatrixProductState.gate_with_auto_swap", "MatrixProductState.gate_nonlocal")
+def _(x, rng, qtn, dt):
+    need(x.L >= 2 and not x.cyclic)
+    d0, d1 = phys(x, 0), phys(x, 1)
+    out = [C(rnd(rng, (d0 * d1, d0 * d1), dt), (0, 1)).flag(gauge=True)]
+    if x.L >= 3:
+        d2 = phys(x, 2)
+        out.append(C(rnd(rng, (d0 * d2, d0 * d2), dt), (2, 0), cutoff=0.0).flag(gauge=True, note="distant reversed"))
+    return out
+
+
+@args_for("MatrixProductState.gate_with_mpo")
+def _(x, rng, qtn, dt):
+    need(not x.cyclic)
+    A = mpo_like(x, rng, qtn, dt)
+    return [C(A).flag(gauge=True), C(A, method="zipup", max_bond=8, cutoff=0.0).flag(gauge=True)]
+
+
+@args_for("MatrixProductState.gate_with_submpo")
+def _(x, rng, qtn, dt):
+    need(not x.cyclic and x.L >= 3)
+    A = mpo_like(x, rng, qtn, dt, sites=[0, 2])
+    return [C(A).flag(gauge=True)]
+
+
+@args_for("MatrixProductState.measure")
+def _(x, rng, qtn, dt):
+    need(not x.cyclic)
+    return [C(0, seed=7).flag(gauge=True), C(x.L - 1, outcome=0, remove=True).flag(gauge=True), C(0, seed=3, get="outcome")]
+
+
+@args_for("MatrixProductOperator.fill_empty_sites")
+def _(x, rng, qtn, dt):
+    return [C(), C(mode="minimal")]
+
+
+@args_for("MatrixProductOperator.gate_sandwich_with_auto_swap")
+def _(x, rng, qtn, dt):
+    need(not x.cyclic and x.L >= 2)
+    d0 = size_of(x, x.upper_ind(0))
+    d1 = size_of(x, x.upper_ind(1))
+    return [C(rnd(rng, (d0 * d1, d0 * d1), dt), (0, 1)).flag(gauge=True, loose=10),
+            C(rnd(rng, (d0 * d1, d0 * d1), dt), (1, 0), dagger=True).flag(gauge=True, loose=10)]
+
+
+# ---- 2D / 3D ---------------------------------------------------------------------------------------
+
+@args_for("PEPS.add_PEPS", "PEPO.add_PEPO")
+def _(x, rng, qtn, dt):
+    return [C(like_vector(x, rng, qtn, dt))]
+
+
+def flat(x):
+    need(not outer_of(x), "needs a network without physical labels")
+
+
+@args_for("TensorNetwork2D.contract_boundary", "TensorNetwork3D.contract_boundary")
+def _(x, rng, qtn, dt):
+    flat(x)
+    out = [C(max_bond=8).flag(gauge=True, loose=1e3)]
+    if type(x)._NDIMS == 2:
+        out.append(C(max_bond=8, sequence=["xmin", "ymax"], canonize=False, cutoff=0.0).flag(gauge=True, loose=1e3))
+        out.append(C(max_bond=8, mode="full-bond", final_contract=False).flag(gauge=True, loose=1e3))
+    return out
+
+
+@args_for("TensorNetwork2D.contract_boundary_from")
+def _(x, rng, qtn, dt):
+    flat(x)
+    return [C((0, 1), (0, x.Ly - 1), "xmin", max_bond=8).flag(gauge=True, loose=1e3),
+            C((0, x.Lx - 1), (x.Ly - 2, x.Ly - 1), "ymax", max_bond=8, sweep_reverse=True).flag(gauge=True, loose=1e3)]
+
+
+@args_for("TensorNetwork2D.contract_boundary_from_xmin", "TensorNetwork2D.contract_boundary_from_ymin")
+def _(x, rng, qtn, dt):
+    flat(x)
+    return [C((0, 1), max_bond=8).flag(gauge=True, loose=1e3)]
+
+
+@args_for("TensorNetwork2D.contract_boundary_from_xmax")
+def _(x, rng, qtn, dt):
+    flat(x)
+    return [C((x.Lx - 2, x.Lx - 1), max_bond=8).flag(gauge=True, loose=1e3)]
+
+
+@args_for("TensorNetwork2D.contract_boundary_from_ymax")
+def _(x, rng, qtn, dt):
+    flat(x)
+    return [C((x.Ly - 2, x.Ly - 1), max_bond=8).flag(gauge=True, loose=1e3)]
+
+
+@args_for("TensorNetwork2D.contract_mps_sweep")
+def _(x, rng, qtn, dt):
+    flat(x)
+    return [C(max_bond=8, direction="xmin").flag(gauge=True, loose=1e3)]
+
+
+@args_for("TensorNetwork2D.contract_ctmrg", "TensorNetwork2D.contract_hotrg", "TensorNetwork3D.contract_ctmrg",
+          "TensorNetwork3D.contract_hotrg")
+def _(x, rng, qtn, dt):
+    flat(x)
+    return [C(max_bond=4).flag(gauge=True, loose=1e4)]
+
+
+@args_for("TensorNetwork2D.coarse_grain_hotrg", "TensorNetwork3D.coarse_grain_hotrg")
+def _(x, rng, qtn, dt):
+    flat(x)
+    return [C("x", max_bond=4).flag(gauge=True, loose=1e4), C("y", max_bond=16, cutoff=0.0).flag(gauge=True, loose=1e4)]
+
+
+@args_for("TensorNetwork3D.contract_boundary_from")
+def _(x, rng, qtn, dt):
+    flat(x)
+    return [C((0, 1), (0, x.Ly - 1), (0, x.Lz - 1), "xmin", max_bond=8).flag(gauge=True, loose=1e3)]
+
+
+@args_for("TensorNetwork3D.contract_peps_sweep", "TensorNetwork3D.contract_simple_sweep")
+def _(x, rng, qtn, dt):
+    flat(x)
+    return [C(8).flag(gauge=True, loose=1e3)]
+
+
+@args_for("TensorNetwork2DFlat.expand_bond_dimension")
+def _(x, rng, qtn, dt):
+    return [C(3), C(4, rand_strength=0.0)]
+
+
+@args_for("TensorNetwork2DVector.normalize")
+def _(x, rng, qtn, dt):
+    return [C(max_bond=16).flag(gauge=True, loose=1e3)]
+
+
+# ----------------------------------------------------------------------------------------------
+# binary operators
+# ----------------------------------------------------------------------------------------------
+
+K_BIN = "binary / unary operators leave their operands unchanged, are invariant under axis permutations of the operands and agree with numpy on the labelled values"
+
+
+def binary_cases(qtn, rng, dt):
+    """(name, operands tuple, function(*operands), reference(value function) or None)"""
+    out = []
+    T = qtn.Tensor
+    a = T(rnd(rng, (2, 3, 2), dt), ("a", "e", "c"), tags="X")
+    b = T(rnd(rng, (2, 2, 3), dt), ("c", "a", "e"), tags="Y")       # same labels, other storage order
+    c = T(rnd(rng, (3, 4), dt), ("e", "f"), tags="Z")
+    one = T(rnd(rng, (1, 3), dt), ("a", "e"))                          # broadcasts over a
+    s = 1.5 - (0.5j if "complex" in dt else 0.0)
+
+    def val(t, order):
+        o, v = dense_value(t, outer=list(order))
+        return v
+
+    abc = ("a", "c", "e")
+    out += [
+        ("T+T", (a, b), lambda x, y: x + y, lambda r, x, y: _close(val(r, abc), val(x, abc) + val(y, abc), "t1+t2")),
+        ("T-T", (a, b), lambda x, y: x - y, lambda r, x, y: _close(val(r, abc), val(x, abc) - val(y, abc), "t1-t2")),
+        ("T*T", (a, b), lambda x, y: x * y, lambda r, x, y: _close(val(r, abc), val(x, abc) * val(y, abc), "t1*t2")),
+        ("T/T", (a, b), lambda x, y: x / y, lambda r, x, y: _close(val(r, abc), val(x, abc) / val(y, abc), "t1/t2")),
+        ("T+broadcast", (a, one), lambda x, y: x + y, None),
+        ("T*s", (a,), lambda x: x * s, lambda r, x: _close(val(r, abc), val(x, abc) * s, "t*s")),
+        ("s*T", (a,), lambda x: s * x, lambda r, x: _close(val(r, abc), val(x, abc) * s, "s*t")),
+        ("T/s", (a,), lambda x: x / s, lambda r, x: _close(val(r, abc), val(x, abc) / s, "t/s")),
+        ("s-T", (a,), lambda x: 2.0 - x, lambda r, x: _close(val(r, abc), 2.0 - val(x, abc), "s-t")),
+        ("T**2", (a,), lambda x: x ** 2, lambda r, x: _close(val(r, abc), val(x, abc) ** 2, "t**2")),
+        ("-T", (a,), lambda x: -x, lambda r, x: _close(val(r, abc), -val(x, abc), "-t")),
+        ("abs(T)", (a,), lambda x: abs(x), None),
+        ("T@T", (a, c), lambda x, y: x @ y, lambda r, x, y: _close(val(r, ("a", "c", "f")),
+                                                                 np.einsum("aec,ef->acf", x.data, y.data), "t1@t2")),
+        ("T@T scalar", (a, b), lambda x, y: x @ y, lambda r, x, y: _close(r, np.einsum("aec,cae->", x.data, y.data), "t1@t2")),
+        ("T&T", (a, c), lambda x, y: x & y, None),
+        ("T|T", (a, c), lambda x, y: x | y, None),
+    ]
+    # networks
+    def net():
+        ts = [T(rnd(rng, (2, 3), dt), ("a", "x"), tags=("A",)), T(rnd(rng, (3, 2, 2), dt), ("x", "y", "s"), tags=("B",)),
+              T(rnd(rng, (2, 2), dt), ("y", "e"), tags=("C",))]
+        tn = qtn.TensorNetwork(ts)
+        tn.exponent = 0.25
+        return tn
+    n1, n2 = net(), net()
+    n2.reindex_({"a": "a2", "e": "e2"})
+    out += [
+        ("TN&TN", (n1, n2), lambda x, y: x & y, lambda r, x, y: _close(dense_value(r)[1], np.multiply.outer(dense_value(x)[1], dense_value(y)[1]).transpose(0, 3, 1, 4, 2, 5), "tn&tn")),
+        ("TN|TN", (n1, n2), lambda x, y: x | y, None),
+        ("TN&T", (n1, c), lambda x, y: x & y, None),
+        ("TN|T", (n1, c), lambda x, y: x | y, None),
+        ("TN^all", (n1,), lambda x: x ^ all, lambda r, x: same_labelled_value(r, x, "tn^all", check_structure=False)),
+        ("TN^...", (n1,), lambda x: x ^ ..., lambda r, x: same_labelled_value(r, x, "tn^...", check_structure=False)),
+        ("TN^tag", (n1,), lambda x: x ^ "B", lambda r, x: same_labelled_value(r, x, "tn^tag", check_structure=False)),
+        ("TN^tags", (n1,), lambda x: x ^ ["A", "B"], None),
+        ("TN>>seq", (n1,), lambda x: x >> ["A", "B", "C"], lambda r, x: same_labelled_value(r, x, "tn>>", check_structure=False)),
+        ("TN@TN", (n1, n1.copy()), lambda x, y: x @ y, lambda r, x, y: _close(r, np.sum(dense_value(x)[1] * dense_value(y)[1]), "tn@tn")),
+        ("TN*s", (n1,), lambda x: x * s, lambda r, x: _close(dense_value(r)[1], dense_value(x)[1] * s, "tn*s")),
+        ("s*TN", (n1,), lambda x: s * x, lambda r, x: _close(dense_value(r)[1], dense_value(x)[1] * s, "s*tn")),
+        ("TN/s", (n1,), lambda x: x / s, lambda r, x: _close(dense_value(r)[1], dense_value(x)[1] / s, "tn/s")),
+        ("-TN", (n1,), lambda x: -x, lambda r, x: _close(dense_value(r)[1], -dense_value(x)[1], "-tn")),
+    ]
+    # structured sums
+    for cyc in (False, True):
+        p1 = qtn.MPS_rand_state(4, 2, dtype=dt, cyclic=cyc, seed=int(rng.integers(1 << 30)))
+        p2 = qtn.MPS_rand_state(4, 3, dtype=dt, cyclic=cyc, seed=int(rng.integers(1 << 30)))
+        tag = "cyclic" if cyc else "open"
+        out += [(f"MPS+MPS {tag}", (p1, p2), lambda x, y: x + y, lambda r, x, y: _close(dense_value(r)[1], dense_value(x)[1] + dense_value(y)[1], "mps+mps")),
+                (f"MPS-MPS {tag}", (p1, p2), lambda x, y: x - y, lambda r, x, y: _close(dense_value(r)[1], dense_value(x)[1] - dense_value(y)[1], "mps-mps")),
+                (f"MPS*s {tag}", (p1,), lambda x: x * s, lambda r, x: _close(dense_value(r)[1], dense_value(x)[1] * s, "mps*s")),
+                (f"MPS/s {tag}", (p1,), lambda x: x / s, lambda r, x: _close(dense_value(r)[1], dense_value(x)[1] / s, "mps/s")),
+                (f"MPS@MPS {tag}", (p1, p2), lambda x, y: x @ y, lambda r, x, y: _close(r, np.sum(dense_value(x)[1] * dense_value(y)[1]), "mps@mps"))]
+    o1 = qtn.MPO_rand(3, 2, dtype=dt, seed=int(rng.integers(1 << 30)))
+    o2 = qtn.MPO_rand(3, 3, dtype=dt, seed=int(rng.integers(1 << 30)))
+    out += [("MPO+MPO", (o1, o2), lambda x, y: x + y, lambda r, x, y: _close(dense_value(r)[1], dense_value(x)[1] + dense_value(y)[1], "mpo+mpo")),
+            ("MPO-MPO", (o1, o2), lambda x, y: x - y, lambda r, x, y: _close(dense_value(r)[1], dense_value(x)[1] - dense_value(y)[1], "mpo-mpo"))]
+    q1 = qtn.PEPS.rand(2, 2, 2, dtype=dt, seed=int(rng.integers(1 << 30)))
+    q2 = qtn.PEPS.rand(2, 2, 2, dtype=dt, seed=int(rng.integers(1 << 30)))
+    out += [("PEPS+PEPS", (q1, q2), lambda x, y: x + y, lambda r, x, y: _close(dense_value(r)[1], dense_value(x)[1] + dense_value(y)[1], "peps+peps")),
+            ("PEPS-PEPS", (q1, q2), lambda x, y: x - y, lambda r, x, y: _close(dense_value(r)[1], dense_value(x)[1] - dense_value(y)[1], "peps-peps"))]
+    return out
+
+
+# ----------------------------------------------------------------------------------------------
+# drivers
+# ----------------------------------------------------------------------------------------------
+
+def _grid(cx):
+    if cx.quick:
+        return ("float64", "complex128"), 2, (0,)
+    return ("float64", "complex128", "float32", "complex64"), 4, (0, 1, 2)
+
+
+def _skip_rec(rec):
+    return rec.get("orphan") or rec["name"].startswith("_")
+
+
+@driver("C03", "plain-pair-permutation", chunks=6, timeout=300,
+        bound="every method with an `inplace` parameter / every f_ alias found by reflection on Tensor, TensorNetwork, "
+              "TensorNetworkGen/GenVector/GenOperator, MatrixProductState (open, cyclic, 2 sites d=3), MatrixProductOperator "
+              "(open, cyclic), Dense1D, PEPS 2x3, PEPO 2x2, TensorNetwork2D 3x3, PEPS3D 2x2x2, TensorNetwork3D 2x2x2 receivers; "
+              "1-10 argument cases per method from the table (options, reversed / distant sites, dims of 1, stored exponent, "
+              "left_inds); dtypes f64/c128 (thorough + f32/c64, 3 seeds); 2 (thorough 4) random axis permutations per case; "
+              "truncating / iterative routines compared by value with a loose tolerance, untruncated where the order of "
+              "compressions could follow the storage order; reference value = numpy.einsum over all tensors (skipped above 3e7 flops)")
+def plain_pair_perm(cx):
+    import warnings
+
+    import quimb.tensor as qtn
+
+    warnings.filterwarnings("ignore")
+    dts, nperm, seeds = _grid(cx)
+    Z = zoo(qtn, cx.quick)
+    for seed in seeds:
+        for dt in dts:
+            for rname, build in Z.items():
+                cls = type(build(np.random.default_rng(0), dt))
+                for rec in discover(cls):
+                    if _skip_rec(rec):
+                        continue
+                    if not cx.mine():
+                        continue
+                    if cx.out_of_time():
+                        cx.inconclusive.append("plain-pair-permutation: time budget exhausted")
+                        return
+                    exercise(cx, qtn, rname, build, rec, dt, nperm, cx.seed * 1000 + seed)
+
+
+@driver("C03", "coverage", chunks=1, timeout=200,
+        bound="reflection only: every public method with an `inplace` parameter (or an f_ alias) of the 19 receiver classes "
+              "must have at least one receiver for which the argument table yields a case; private (underscore) methods "
+              "and aliases without a plain spelling are listed as not exercised")
+def coverage(cx):
+    import quimb.tensor as qtn
+
+    Z = zoo(qtn, True)
+    seen = {}
+    for rname, build in Z.items():
+        x = build(np.random.default_rng(1), "float64")
+        for rec in discover(type(x)):
+            key = f"{rec['owner']}.{rec['name']}"
+            ent = seen.setdefault(key, dict(n=0, private=_skip_rec(rec), receivers=[], why=""))
+            if ent["private"]:
+                continue
+            try:
+                cases = cases_for(rec, x, np.random.default_rng(2), qtn, "float64")
+            except Skip as e:
+                ent["why"] = str(e)
+                continue
+            if cases is None:
+                ent["why"] = f"no argument-table entry (needs {required_params(rec)})"
+                continue
+            ent["n"] += len(cases)
+            ent["receivers"].append(rname)
+    for key, ent in sorted(seen.items()):
+        def thunk(ent=ent):
+            if ent["private"]:
+                return None
+            if ent["n"] == 0:
+                return f"not exercised: {ent['why'] or 'no receiver accepts it'}"
+            return None
+        cx.check(K_COVER, dict(method=key, private=ent["private"], cases=ent["n"], receivers=len(ent["receivers"])), thunk,
+                 nontrivial=not ent["private"] and ent["n"] > 0)
+
+
+@driver("C03", "binary-operators", chunks=2, timeout=200,
+        bound="+ - * / ** @ & | ^ >> unary - and abs on Tensor (same labels stored in another order, broadcasting, scalars "
+              "on both sides), TensorNetwork (stored exponent), MPS +/- (open, cyclic), MPO +/-, PEPS +/-; operands read-only; "
+              "2 (thorough 5) axis permutations; values vs numpy on the einsum values of the operands")
+def binary_ops(cx):
+    import warnings
+
+    import quimb.tensor as qtn
+
+    warnings.filterwarnings("ignore")
+    dts, nperm, seeds = _grid(cx)
+    for seed in seeds:
+        for dt in dts:
+            rng = np.random.default_rng([cx.seed, seed, sum(map(ord, dt))])
+            for name, operands, fn, ref in binary_cases(qtn, rng, dt):
+                if not cx.mine():
+                    continue
+                freeze(operands)
+                prng = np.random.default_rng([cx.seed, seed, sum(map(ord, dt + name))])
+                perms = [freeze(permute_axes(operands, prng)) for _ in range(nperm + (0 if cx.quick else 1))]
+
+                def thunk(operands=operands, fn=fn, ref=ref, perms=perms):
+                    f0 = fingerprint(operands)
+                    r = fn(*operands)
+                    e = fp_diff(f0, fingerprint(operands), "operands")
+                    if e:
+                        return e
+                    if any(r is o for o in operands):
+                        return "the operator returned one of its operands"
+                    if ref is not None:
+                        e = ref(r, *operands)
+                        if e:
+                            return e
+                    for ops in perms:
+                        rp = fn(*ops)
+                        e = same_labelled_value(r, rp, "op(x, y) vs op on axis-permuted operands")
+                        if e:
+                            return e
+                    return None
+
+                cx.check(K_BIN, dict(op=name, dtype=dt, seed=seed), thunk)
